@@ -9,9 +9,9 @@ Import ListNotations.
 Local Open Scope N_scope.
 
 Ltac gen_unfold :=
-  unfold alloc_ok, slack, growth, tested, strict, witness_size, witness_limit,
+  unfold witness_size, witness_limit, alloc_ok, slack, growth, tested, strict,
     alloc_refused, alloc_needed, alloc_update, free_update, collect_due, collect_limit_after,
-    obj_size, sat_add, usize_max, initial_allocated, initial_collect_limit in *.
+    obj_size, sat_add, initial_allocated, initial_collect_limit in *.
 
 Ltac leb_cases :=
   repeat match goal with
@@ -28,7 +28,7 @@ Lemma alloc_ok_bound : forall hdr a size limit,
   alloc_ok hdr a size limit = true ->
   alloc_update hdr a size <= limit + slack hdr.
 Proof.
-  intros hdr a size limit Hl H. gen_unfold. cbn in *.
+  intros hdr a size limit Hl H. gen_unfold.
   apply negb_true_iff in H. leb_cases; try discriminate; lia.
 Qed.
 
@@ -160,8 +160,8 @@ Proof.
   intros hdr Hs Hl. split; [reflexivity|].
   unfold witness_ops. cbn [run_ops run_op fst heap0 allocated].
   destruct (alloc_ok hdr initial_allocated (witness_size hdr) (witness_limit hdr)) eqn:E.
-  - cbn. gen_unfold. cbn in *. leb_cases; lia.
-  - exfalso. gen_unfold. cbn in *. apply negb_false_iff in E. leb_cases; try discriminate; lia.
+  - cbn [fst do_alloc_unchecked allocated heap0]. gen_unfold. leb_cases; lia.
+  - exfalso. gen_unfold. apply negb_false_iff in E. leb_cases; try discriminate; lia.
 Qed.
 
 Corollary account_le_limit_false_with_slack : forall hdr,
